@@ -241,6 +241,56 @@ pub fn run_workload(prop: &str, sub: u64, acc: &mut Acc, ctx: &Ctx, thorough: bo
             }
         }
     }
+    // A named pipe in place of the file: its stat reports size 0 although reads return data, and
+    // it cannot be mapped. Half of the time with -U and the line-terminator-capable pattern.
+    {
+        use std::os::unix::fs::OpenOptionsExt;
+        let fifo = root.join("pipe");
+        let _ = std::fs::remove_file(&fifo);
+        let cpath = std::ffi::CString::new(fifo.to_str().unwrap()).unwrap();
+        if unsafe { libc::mkfifo(cpath.as_ptr(), 0o644) } == 0 {
+            let ml = !w.stop_nm && rng.chance(1, 2);
+            let map = if rng.chance(1, 2) { "--mmap" } else { "--no-mmap" };
+            let mut targs: Vec<String> = fl[..fl.len() - 1].to_vec();
+            if ml {
+                targs.extend(["-U".into(), "foo\\n?".into()]);
+            } else {
+                targs.push("foo".into());
+            }
+            targs.extend([map.into(), "w/pipe".into()]);
+            let text = w.text.clone();
+            let fpath = fifo.clone();
+            let writer = std::thread::spawn(move || {
+                use std::io::Write;
+                if let Ok(mut f) = std::fs::OpenOptions::new().write(true).open(&fpath) {
+                    let _ = f.write_all(&text);
+                }
+            });
+            let spec = RunSpec { args: targs.clone(), plan: vec!["noop=1".into()], ..RunSpec::default() };
+            let got = ctx.run(&scratch, &spec, 60);
+            // release the writer should rg never have opened the pipe
+            if let Ok(mut f) = std::fs::OpenOptions::new().read(true).custom_flags(libc::O_NONBLOCK).open(&fifo) {
+                use std::io::Read;
+                let mut sink = vec![];
+                let _ = f.read_to_end(&mut sink);
+            }
+            let _ = writer.join();
+            let _ = std::fs::remove_file(&fifo);
+            acc.evals += 1;
+            acc.faults.inc(&format!("route:named-pipe{}", if ml { "(-U)" } else { "" }));
+            digest = digest_out(digest, &got);
+            let body = json!({"engine": "procsim", "kind": "c03", "subseed_workload": sub, "route": "named-pipe", "run": spec_json(&spec), "input": show(&w.text), "expected_by_model": show(&expected), "observed": got.to_json()});
+            if prop == "C03" {
+                if got.stdout != expected || got.code != exp_code || !got.stderr.is_empty() {
+                    acc.violation("C03", &format!("cli-differs-from-model:named-pipe{}", if ml { "(-U)" } else { "" }), format!("rg {:?}: output for a named pipe differs from the grep model's rendering (exit {} expected {exp_code}; {} vs {} bytes)", targs, got.code, got.stdout.len(), expected.len()), sub, body);
+                }
+            } else if let Some((n0, r0)) = &first {
+                if got.stdout != r0.stdout || got.code != r0.code || got.stderr != r0.stderr {
+                    acc.violation("C02", &format!("cli-routes-differ:{n0}-vs-named-pipe{}", if ml { "(-U)" } else { "" }), format!("rg {:?}: output for a named pipe differs from output via {n0} (exit {} vs {}; {} vs {} bytes)", targs, got.code, r0.code, got.stdout.len(), r0.stdout.len()), sub, body);
+                }
+            }
+        }
+    }
     if !expected.is_empty() {
         acc.distinct.insert(fnv(&w.text) ^ sub);
     }
